@@ -1,6 +1,7 @@
 import Sourmash.Lemmas.SimilarityNum
 import Sourmash.Lemmas.SimilarityAng
 import Sourmash.Lemmas.SimilarityReal
+import Sourmash.Lemmas.SimilarityDiv
 /-!
 Property C05 — similarity, containment and angular similarity are exact on retained hashes.
 Property theorems only; helper lemmas live in `Sourmash/Lemmas/Similarity*.lean`.
@@ -535,5 +536,37 @@ theorem ratio_rounded_zero (c s K : ℕ) (hs : 0 < s) :
   ⟨rn_zero s K hs, rn_pos c s K hs⟩
 
 example : rnStep (3 * 2 ^ 53) 3 = 2 ^ 53 := (ratio_rounded_eq_one 3 3 (2 ^ 53) (by decide) (by decide) (by decide)).mpr rfl
+
+/-! ### the division on the exact integer model of binary64 (Model/Scaled.lean, as in C14) -/
+
+/-- Jaccard / containment in binary64, exact model: for counts `0 < c ≤ s < 2^53` the value
+    `c as f64 / s as f64` is `m·2^(−k)` with `m ≤ 2^k` (value ≤ 1), `m > 0` (value > 0), and
+    `m = 2^k` (value exactly 1.0) iff `c = s`. -/
+theorem ratio_binary64 (c s : ℕ) (hc : 0 < c) (hcs : c ≤ s) (hs : s < 2 ^ 53) :
+    ∃ m k : ℕ, Scaled.fdiv (Scaled.ofNat c) (Scaled.ofNat s) = (m, -(k : ℤ)) ∧
+      m ≤ 2 ^ k ∧ 0 < m ∧ (m = 2 ^ k ↔ c = s) := by
+  obtain ⟨m, k, h, h1, h2, h3⟩ := rnDiv_le_one c s hc hcs
+  refine ⟨m, k, ?_, h1, h2, h3 (Nat.le_of_lt hs)⟩
+  rw [fdiv_ofNat c s hc (by omega) (by omega) hs]; exact h
+
+example : ∃ m k : ℕ, Scaled.fdiv (Scaled.ofNat 2) (Scaled.ofNat 7) = (m, -(k : ℤ)) ∧
+    m ≤ 2 ^ k ∧ 0 < m ∧ (m = 2 ^ k ↔ 2 = 7) := ratio_binary64 2 7 (by decide) (by decide) (by decide)
+
+/-- … it is exactly 0 for `c = 0` … -/
+theorem ratio_binary64_zero (s : ℕ) (hs : 0 < s) (hs' : s < 2 ^ 53) :
+    (Scaled.fdiv (Scaled.ofNat 0) (Scaled.ofNat s)).1 = 0 := fdiv_zero s hs hs'
+
+/-- … and monotone in `c`: `m/2^k ≤ m'/2^k'` for `c ≤ c'`. -/
+theorem ratio_binary64_mono (c c' s : ℕ) (hc : 0 < c) (hcc : c ≤ c') (hcs : c' ≤ s) (hs : s < 2 ^ 53) :
+    ∃ m k m' k' : ℕ, Scaled.fdiv (Scaled.ofNat c) (Scaled.ofNat s) = (m, -(k : ℤ)) ∧
+      Scaled.fdiv (Scaled.ofNat c') (Scaled.ofNat s) = (m', -(k' : ℤ)) ∧ m * 2 ^ k' ≤ m' * 2 ^ k := by
+  obtain ⟨m, k, m', k', h, h', hle⟩ := rnDiv_mono c c' s hc hcc hcs
+  refine ⟨m, k, m', k', ?_, ?_, hle⟩
+  · rw [fdiv_ofNat c s hc (by omega) (by omega) hs]; exact h
+  · rw [fdiv_ofNat c' s (by omega) (by omega) (by omega) hs]; exact h'
+
+example : ∃ m k m' k' : ℕ, Scaled.fdiv (Scaled.ofNat 2) (Scaled.ofNat 7) = (m, -(k : ℤ)) ∧
+    Scaled.fdiv (Scaled.ofNat 5) (Scaled.ofNat 7) = (m', -(k' : ℤ)) ∧ m * 2 ^ k' ≤ m' * 2 ^ k :=
+  ratio_binary64_mono 2 5 7 (by decide) (by decide) (by decide) (by decide)
 
 end Sourmash.C05
